@@ -1,6 +1,6 @@
 """C20 - middleware semantics: proxy trust boundary, dispatch routing + lifespan fan-out, HTTPS redirect.
 
-The real middleware classes are executed; nothing is mocked below them.  Four kinds of scenario:
+The real middleware classes are executed; nothing is mocked below them.  Kinds of scenario:
 
   pf / pfx / pf-lifespan   ProxyFixMiddleware called directly (its coroutine never suspends) on synthetic scopes.
       Enumerated: mode {legacy, modern} x trusted_hops {0..3} (thorough 0..4) x target header {x-forwarded-for, -proto,
@@ -11,20 +11,46 @@ The real middleware classes are executed; nothing is mocked below them.  Four ki
       x attacker prefix {none, extra leading field, leading list items, both, multi-item mixed-case field, field(s) of
       the other form}.  pfx: the same structure over exotic RFC 7239 spellings (quoted, upper-case parameters, IPv6,
       obfuscated, empty element) where only the safety clauses are demanded.
+  pfn    the pf structure (n <= 2 items, thorough 3) on requests WITHOUT a Host header: HTTP/1.0 style and HTTP/2
+      without :authority.
+  pfh    request HISTORIES through ONE ProxyFixMiddleware instance: mode x trusted_hops 0..3 (thorough 0..4) x every
+      sequence of 1..2 requests over a 31-request alphabet {http, websocket} x {Host, no Host (1.0), no :authority (2)} x
+      5 forwarding-header sets (none / 1 / 2 / 3 values over two fields / host only) + lifespan, and every triple over
+      a 10-request sub-alphabet (thorough: every triple over the 31).
   disp   Asyncio/TrioDispatcherMiddleware called directly: every ordered mount table of 1..3 mounts over
       {"/", "/a", "/a/b", "/b"} x every path of <= 3 segments over {a, b, ab} with/without trailing slash x {http,
       websocket} scope.
+  disph  request HISTORIES through ONE dispatcher: every ordered mount table x every pair over {"/", "/a", "/a/b/x",
+      "/b/", "/ab", "/c"} x {http, websocket} and every triple over a 7-request sub-alphabet (thorough: every triple),
+      so mounts are hit in every order, with 404s in between.
+  ds     the dispatcher inside the real worker_serve (both engines): lifespan startup fanned out to 2-3 mounts, then
+      every history of 0..2 (first table and thorough: 0..3) requests over {GET to three mounts, GET without a mount,
+      websocket handshake}, each on its own connection, then shutdown.
   red    HTTPToHTTPSRedirectMiddleware called directly: request host x configured host x raw path (escapes, "//",
       ";", ":") x query x root_path x scope kind {http 1.1, http 2, https, ws 1.1, ws 2, ws without the denial-response
-      extension, wss, lifespan}.
+      extension, wss, lifespan}; request host includes "no Host header" (then only with a configured host).
+  redh   request HISTORIES through ONE redirect instance: configured host {None, set} x every pair over a 47 / 57-request
+      alphabet (7 scope kinds x {3 Host values, no Host} x 2 URL shapes, + lifespan; no-Host cleartext requests only with
+      a configured host) and every triple over a 10 / 13-request sub-alphabet (thorough: every triple over the full one).
   fan    lifespan fan-out under Explorer A (real worker_serve on the virtual loop / instrumented trio): 2-3 mounted
       scripted apps drawn from {completes behind gates, completes at once, startup.failed, never completes, raises
       at once, raises after its gate, raises after startup, returns without shutdown.complete}; every release order
       of the gates, the shutdown trigger and timer ticks interleaved within (M, S, R).
   e2e    a few requests through the real TCPServer (h1, ws/h1) with each middleware mounted, both engines.
 
+Every request of a history is judged by the single-request oracle (reference rule), and additionally by the
+differential oracle "what request r gives after history h == what r gives on an instance without a past".
+
 Oracle clauses (reference rules in mc/x_c19c20_ref.py):
-  pf-caller-scope-mutated   the scope object handed to the middleware differs after the call (deep comparison)
+  pf-caller-scope-mutated   the object graph of the scope handed to the middleware differs when the inner application
+                            is entered or after the call: a leaf value, an added / removed / reordered item, or one of
+                            the caller's dicts / lists replaced (Snapshot: containers by identity, leaves by value)
+  pf-inner-scope-aliased    the inner application assigns top-level keys of / edits the header list of the scope it was
+                            given and that shows in the caller's scope (http / websocket scopes)
+  redirect-caller-scope-mutated / dispatch-caller-scope-mutated   the same graph comparison for the other two (the
+                            dispatcher may rewrite path / raw_path / root_path in place: it does so with `path` today)
+  pf-history-dependent / redirect-history-dependent / dispatch-history-dependent   a request is treated differently
+                            after other requests than on a fresh instance (also: the caller's mount dict changed)
   pf-untouched              zero hops / too few values, yet client / scheme / host changed
   pf-trusted-value          plain spellings: client / scheme / host differ from the value trusted_hops from the right
   pf-untrusted-value-used   metamorphic: with enough values, an attacker prefix changed client / scheme / host
@@ -55,11 +81,16 @@ from mc.x_c19c20_enum import run_family, stable_repr
 
 ID = "C20"
 LEVEL = "model_checking"
-TECHNIQUE = ("bounded exhaustive enumeration of header multisets / mount tables x paths / URLs x scope kinds on the real "
-             "middleware classes, with reference rules and a metamorphic attacker-prefix oracle; stateless "
+TECHNIQUE = ("bounded exhaustive enumeration of header multisets / mount tables x paths / URLs x scope kinds (with and "
+             "without a Host header) on the real middleware classes, with reference rules and a metamorphic "
+             "attacker-prefix oracle; exhaustive enumeration of request histories (all pairs, triples) through ONE "
+             "middleware instance with the reference rule per request plus a fresh-instance differential oracle; "
+             "object-graph comparison of the caller's scope (identity of containers, value of leaves) around every call "
+             "with an inner application that mutates its own scope; stateless "
              "deviation-bounded exploration (CHESS-style) of the dispatcher's lifespan fan-out inside the real "
              "worker_serve on a virtual-time loop (asyncio) and instrumented trio")
-RULE = ("one evaluation = one case (header multiset + hops + prefix; mount table + path; URL + scope kind) or one "
+RULE = ("one evaluation = one case (header multiset + hops + prefix; mount table + path; URL + scope kind), one request "
+        "history of 1..3 requests through one instance, or one "
         "interleaving of gate releases / shutdown / ticks for the fan-out; distinct by digest of what the wrapped "
         "application received and what the middleware sent; non-trivial = the middleware changed the scope, routed to a "
         "mount, answered itself, or (fan-out) an application ran and a non-default choice was taken")
@@ -71,13 +102,23 @@ ASSUMPTIONS = [
     "dispatcher prefix match is the documented string-prefix match in dictionary order",
     "redirect target = scheme://(configured host or Host header) + root_path + raw_path [+ ?query]; a websocket over "
     "HTTP/2 may be redirected to https or wss; without the denial-response extension only a refusal is possible",
+    "a cleartext request without a Host header and without a configured redirect host is outside the enumerated space "
+    "(there is no 'same host'; hypercorn raises ValueError)",
+    "the dispatcher hands the caller's scope object to the mount with `path` rewritten in place; the property does not "
+    "say whether it may, so path / raw_path / root_path are exempt from the caller-scope comparison for the dispatcher",
+    "inner-application isolation is demanded for ProxyFix only (top-level keys and the header list), the other two "
+    "middlewares pass the caller's scope object through by design",
     "fan-out: judged at the ASGI messages the middleware sends to the server (mount-raised exceptions, which the server "
     "treats as 'lifespan unsupported', are not 'complete' messages)",
     "environment model (fake transport, virtual loop) is bound to real sockets by ./check selftest",
 ]
-BOUNDS_DOC = {"quick": "n<=3 items, hops 0..3; fan-out: all 64 program pairs + 5 selected triples, M<=1,S<=2,R=0",
-              "thorough": "n<=4 items, hops 0..4; fan-out: all 64 program pairs at M<=2,S<=3 (trio R<=1), all 512 triples "
-                          "at M<=1,S<=2"}
+BOUNDS_DOC = {"quick": "n<=3 items, hops 0..3 (no-Host requests: n<=2); histories: all pairs over the full request alphabets "
+                       "(31 ProxyFix, 47/57 redirect, 12 dispatcher x 40 mount tables) + all triples over sub-alphabets "
+                       "(10, 10/13, 7); serve-level dispatcher histories <=2 (one table <=3) requests; fan-out: all 64 "
+                       "program pairs + 5 selected triples, M<=1,S<=2,R=0",
+              "thorough": "n<=4 items, hops 0..4 (no-Host requests: n<=3); histories: all pairs and all triples over the full "
+                          "alphabets; serve-level dispatcher histories <=3 requests on 3 mount tables; fan-out: all 64 "
+                          "program pairs at M<=2,S<=3 (trio R<=1), all 512 triples at M<=1,S<=2"}
 BUDGET = {"quick": 100, "thorough": 1150}
 MAX_EXEC_PER_ITEM = 60000
 
@@ -96,19 +137,125 @@ def drive(coro: Any) -> Any:
     raise HarnessError("middleware coroutine suspended outside an event loop")
 
 
-class Recorder:
-    """Inner ASGI application: records how it was called; optionally answers."""
+_LEAF = (bytes, str, int, float, bool, type(None))
 
-    def __init__(self, name: Any = None, answer: bool = False) -> None:
+
+def _flat(o: Any, out: list) -> None:
+    """Pre-order listing of an object graph: mutable containers by identity, everything else by type and value."""
+    t = type(o)
+    if t is dict:
+        out.append(o)
+        out.append(("dict", len(o)))
+        for k, v in o.items():
+            out.append(k)
+            _flat(v, out)
+    elif t is list:
+        out.append(o)
+        out.append(("list", len(o)))
+        for v in o:
+            _flat(v, out)
+    elif t is tuple:
+        out.append(("tuple", len(o)))
+        for v in o:
+            _flat(v, out)
+    else:
+        out.append(o if t in _LEAF else repr(o))
+
+
+def _same(a: list, b: list) -> bool:
+    if len(a) != len(b):
+        return False
+    for x, y in zip(a, b):
+        if type(x) in (dict, list):
+            if x is not y:  # the caller's own container was replaced by another object
+                return False
+        elif type(x) is not type(y) or x != y:
+            return False
+    return True
+
+
+class Snapshot:
+    """The caller's scope as an object graph: which container objects sit where, and every leaf value.
+
+    Holds references to the caller's containers (so their ids cannot be recycled); `diff()` lists the top-level scope
+    keys under which the graph is no longer what it was (a value changed, an item was added / removed / reordered, or
+    one of the caller's dicts / lists was swapped for another object)."""
+
+    def __init__(self, scope: dict) -> None:
+        self.scope = scope
+        self.keys = list(scope.keys())
+        self.parts = {k: self._part(v) for k, v in scope.items()}
+
+    @staticmethod
+    def _part(v: Any) -> list:
+        out: list = []
+        _flat(v, out)
+        return out
+
+    def diff(self) -> List[str]:
+        now = self.scope
+        out = [str(k) for k in self.keys if k not in now]
+        out += [str(k) for k in now if k not in self.parts]
+        for k in self.keys:
+            if k in now and not _same(self.parts[k], self._part(now[k])):
+                out.append(str(k))
+        if not out and list(now.keys()) != self.keys:
+            out.append("<key-order>")
+        return sorted(out)
+
+
+class Recorder:
+    """Inner ASGI application: records how it was called; optionally answers.
+
+    With `watch` (a Snapshot of the caller's scope) it notes what the caller's graph looks like when the application
+    is entered; with `mutate` it then behaves like an application that treats the scope it was given as its own
+    (assigns top-level keys, edits the header list) and notes what of that shows through to the caller."""
+
+    def __init__(self, name: Any = None, answer: bool = False, mutate: bool = False) -> None:
         self.name = name
         self.calls: List[tuple] = []
         self.answer = answer
+        self.mutate = mutate
+        self.watch: Optional[Snapshot] = None
+        self.diff_enter: List[str] = []
+        self.diff_inner: List[str] = []
 
     async def __call__(self, scope: dict, receive: Any, send: Any) -> None:
-        self.calls.append((scope, receive, send))
+        if self.watch is not None:
+            self.diff_enter = self.diff_inner = self.watch.diff()
+        if self.mutate and scope.get("type") in ("http", "websocket"):
+            seen = dict(scope)
+            seen["headers"] = list(scope["headers"])
+            self.calls.append((seen, receive, send))
+            scope["headers"].append((b"x-inner-app", b"appended"))
+            scope["headers"][0] = (b"x-inner-app", b"replaced")
+            scope["client"] = ("inner.app", 1)
+            scope["scheme"] = "inner"
+            scope["x-inner-app"] = 1
+            if self.watch is not None:
+                self.diff_inner = self.watch.diff()
+        else:
+            self.calls.append((scope, receive, send))
         if self.answer:
             await send({"type": "http.response.start", "status": 200, "headers": []})
             await send({"type": "http.response.body", "body": b"", "more_body": False})
+
+
+def scope_checks(pre: str, tag: str, snap: Snapshot, inner: Optional[Recorder], allowed: Tuple[str, ...] = ()) -> List[dict]:
+    """Caller-scope clauses after one middleware call (`allowed`: top-level keys the middleware may rewrite in place)."""
+    final = snap.diff()
+    enter = inner.diff_enter if inner is not None and inner.calls else []
+    within = inner.diff_inner if inner is not None and inner.calls else []
+    out = []
+    own = sorted((set(enter) | (set(final) - set(within))) - set(allowed))
+    if own:
+        out.append(V(f"{pre}-caller-scope-mutated", f"{tag}:{'+'.join(own)}",
+                     f"the caller's scope changed under {own}: now {stable_repr(snap.scope)[:600]}"))
+    alias = sorted(set(within) - set(enter))
+    if alias:
+        out.append(V(f"{pre}-inner-scope-aliased", f"{tag}:{'+'.join(alias)}",
+                     f"what the inner application did to its scope shows in the caller's scope under {alias}"))
+    return out
 
 
 class Outbox:
@@ -171,10 +318,15 @@ def field_layouts(nmax: int, alphabet: int = 4) -> List[Tuple[Tuple[int, ...], .
     return out
 
 
-def pf_headers(target: bytes, style: int, fields: tuple, others: int, prefix: int, alphabet: List[str]) -> List[Tuple[bytes, bytes]]:
+HOSTMODES = [0, 1, 2]  # 0: Host header present; 1: HTTP/1.0 request without Host; 2: HTTP/2 request without :authority
+HTTP_VERSION = {0: "1.1", 1: "1.0", 2: "2"}
+
+
+def pf_headers(target: bytes, style: int, fields: tuple, others: int, prefix: int, alphabet: List[str],
+               hostmode: int = 0) -> List[Tuple[bytes, bytes]]:
     sep = SEPS[style]
     name = MIXED[target] if style == 2 else target
-    hs: List[Tuple[bytes, bytes]] = [(b"host", b"internal:8000"), (b"accept", b"*/*")]
+    hs: List[Tuple[bytes, bytes]] = [(b"host", b"internal:8000"), (b"accept", b"*/*")] if hostmode == 0 else [(b"accept", b"*/*")]
     companions = [h for h in LEGACY if h != target] if target != b"forwarded" else list(LEGACY)
     if others >= 1:
         for h in companions:
@@ -205,10 +357,10 @@ def pf_headers(target: bytes, style: int, fields: tuple, others: int, prefix: in
     return lead + hs
 
 
-def pf_scope(kind: int, headers: List[Tuple[bytes, bytes]]) -> dict:
+def pf_scope(kind: int, headers: List[Tuple[bytes, bytes]], hostmode: int = 0) -> dict:
     scope = {
         "type": "http" if kind == 0 else "websocket", "asgi": {"version": "3.0", "spec_version": "2.3"},
-        "http_version": "1.1", "scheme": "http" if kind == 0 else "ws", "path": "/p", "raw_path": b"/p",
+        "http_version": HTTP_VERSION[hostmode], "scheme": "http" if kind == 0 else "ws", "path": "/p", "raw_path": b"/p",
         "query_string": b"q=1", "root_path": "", "headers": headers, "client": ("10.9.8.7", 5555),
         "server": ("127.0.0.1", 8000), "extensions": {"websocket.http.response": {}}, "state": {"k": [1, 2]},
     }
@@ -219,19 +371,23 @@ def pf_scope(kind: int, headers: List[Tuple[bytes, bytes]]) -> dict:
     return scope
 
 
-def pf_run(mode: str, hops: int, scope: dict) -> Tuple[Optional[dict], List[dict], dict]:
-    """-> (inner scope or None, passthrough violations, summary)."""
+def pf_run(mode: str, hops: int, scope: dict, mw: Any = None, inner: Optional[Recorder] = None) -> Tuple[Optional[dict], List[dict], dict]:
+    """One call of the middleware (a fresh instance unless `mw` + its `inner` recorder are handed in).
+
+    -> (inner scope or None, passthrough / caller-scope violations, summary)."""
     from hypercorn.middleware import ProxyFixMiddleware
 
     before = copy.deepcopy(scope)
-    inner = Recorder()
+    snap = Snapshot(scope)
+    if mw is None:
+        inner = Recorder(mutate=True)
+        mw = ProxyFixMiddleware(inner, mode=mode, trusted_hops=hops)  # type: ignore
+    assert inner is not None
+    inner.watch = snap
+    del inner.calls[:]
     box = Outbox()
-    mw = ProxyFixMiddleware(inner, mode=mode, trusted_hops=hops)  # type: ignore
     drive(mw(scope, box.receive, box.send))
-    viol: List[dict] = []
-    if scope != before:
-        fields = sorted(k for k in set(scope) | set(before) if scope.get(k) != before.get(k))
-        viol.append(V("pf-caller-scope-mutated", f"{mode}:{'+'.join(fields)}", f"{before} -> {scope}"))
+    viol: List[dict] = scope_checks("pf", mode, snap, inner)
     if len(inner.calls) != 1:
         viol.append(V("pf-passthrough", f"{mode}:inner-calls:{len(inner.calls)}", ""))
         return None, viol, {}
@@ -285,13 +441,14 @@ def pf_judge(mode: str, summary: dict, before: dict, accept: List[Dict[str, Opti
 
 def do_pf(case: tuple) -> ExecResult:
     # ("pf", mode, target index (0..2 legacy, 3 forwarded), hops, style, others, scope kind, fields, prefix, exotic)
-    _, mode, ti, hops, style, others, kind, fields, prefix, exotic = case
+    _, mode, ti, hops, style, others, kind, fields, prefix, exotic = case[:10]
+    hostmode = case[10] if len(case) > 10 else 0
     target = (LEGACY + [b"forwarded"])[ti]
     alphabet = EXOTIC if exotic else ALPHA[target]
     viol: List[dict] = []
-    base_headers = pf_headers(target, style, fields, others, 0, alphabet)
-    headers = pf_headers(target, style, fields, others, prefix, alphabet)
-    scope = pf_scope(kind, headers)
+    base_headers = pf_headers(target, style, fields, others, 0, alphabet, hostmode)
+    headers = pf_headers(target, style, fields, others, prefix, alphabet, hostmode)
+    scope = pf_scope(kind, headers, hostmode)
     before = copy.deepcopy(scope)
     got, v1, summary = pf_run(mode, hops, scope)
     viol += v1
@@ -309,7 +466,7 @@ def do_pf(case: tuple) -> ExecResult:
     # metamorphic: whatever the attacker prepends changes nothing once enough trusted values exist
     if prefix != 0:
         enough_names = [own] if own is not None else LEGACY
-        base_scope = pf_scope(kind, base_headers)
+        base_scope = pf_scope(kind, base_headers, hostmode)
         got0, v0, summary0 = pf_run(mode, hops, base_scope)
         viol += v0
         if got0 is not None and hops > 0:
@@ -322,8 +479,8 @@ def do_pf(case: tuple) -> ExecResult:
                         viol.append(V("pf-untrusted-value-used", f"{mode}:{f}:prefix{prefix}",
                                       f"without prefix {summary0[f]!r}, with prefix {summary[f]!r}; headers {headers}"))
     changed = summary["client"] != before["client"] or summary["scheme"] != before["scheme"] or \
-        summary["host"] != [b"internal:8000"]
-    return result(case, viol, (mode, hops, kind, summary["client"], summary["scheme"], tuple(summary["host"]),
+        summary["host"] != [h[1] for h in before["headers"] if h[0].lower() == b"host"]
+    return result(case, viol, (mode, hops, kind, hostmode, summary["client"], summary["scheme"], tuple(summary["host"]),
                                len(got["headers"])), changed)
 
 
@@ -339,6 +496,104 @@ def do_pf_lifespan(case: tuple) -> ExecResult:
     if len(inner.calls) != 1 or inner.calls[0][0] != before or scope != before or box.messages:
         viol.append(V("pf-passthrough", f"{mode}:lifespan", inner.calls))
     return result(case, viol, ("lifespan", len(inner.calls)), False)
+
+
+# ---------------------------------------------------------------------------------------------
+# ProxyFix request histories through ONE middleware instance
+
+PFH_FWD = {
+    "legacy": [
+        [],
+        [(b"x-forwarded-for", b"1.1.1.1"), (b"x-forwarded-proto", b"https"), (b"x-forwarded-host", b"a.example")],
+        [(b"x-forwarded-for", b"6.6.6.6, 2.2.2.2"), (b"x-forwarded-proto", b"gopher,wss"),
+         (b"x-forwarded-host", b"evil.example, b.example:8443")],
+        [(b"x-forwarded-for", b"6.6.6.6"), (b"x-forwarded-for", b"3.3.3.3, 4.4.4.4"), (b"x-forwarded-proto", b"http"),
+         (b"X-Forwarded-Host", b"c.example , d.example"), (b"forwarded", b"for=7.7.7.7;proto=ftp;host=ignored.example")],
+        [(b"x-forwarded-host", b"d.example")],
+    ],
+    "modern": [
+        [],
+        [(b"forwarded", b"for=1.1.1.1;proto=https;host=a.example")],
+        [(b"forwarded", b"for=6.6.6.6;proto=gopher;host=evil.example, for=2.2.2.2;proto=wss;host=b.example:8443")],
+        [(b"forwarded", b"for=6.6.6.6"), (b"Forwarded", b"for=3.3.3.3;proto=http;host=c.example , for=4.4.4.4")],
+        [(b"forwarded", b"host=d.example")],
+    ],
+}
+LIFESPAN_REQ = (2, 0, 0)
+
+
+def pfh_alphabet(small: bool) -> List[Tuple[int, int, int]]:
+    """Requests (scope kind 0 http / 1 websocket / 2 lifespan, hostmode, forwarding header set)."""
+    if small:
+        reqs = [(0, hm, f) for hm in (0, 1) for f in (0, 1, 2, 4)] + [(1, 1, 3)]
+    else:
+        reqs = [(k, hm, f) for k in (0, 1) for hm in (0, 1, 2) for f in range(5)]
+    return reqs + [LIFESPAN_REQ]
+
+
+def pfh_scope(mode: str, req: Tuple[int, int, int]) -> dict:
+    kind, hostmode, f = req
+    if kind == 2:
+        return {"type": "lifespan", "asgi": {"version": "3.0"}, "state": {}}
+    headers: List[Tuple[bytes, bytes]] = [(b"accept", b"*/*")]
+    if hostmode == 0:
+        headers.append((b"host", b"internal:8000"))
+    headers += PFH_FWD[mode][f]
+    headers.append((b"user-agent", b"c20"))
+    return pf_scope(kind, headers, hostmode)
+
+
+def pfh_request(mode: str, hops: int, req: Tuple[int, int, int], mw: Any, inner: Recorder) -> Tuple[List[dict], Any]:
+    """One request through `mw`: the single-request oracle (reference rule, pass-through, caller scope); -> (violations,
+    everything the inner application saw and the middleware sent)."""
+    scope = pfh_scope(mode, req)
+    before = copy.deepcopy(scope)
+    if req[0] == 2:
+        snap = Snapshot(scope)
+        inner.watch = snap
+        del inner.calls[:]
+        box = Outbox()
+        drive(mw(scope, box.receive, box.send))
+        viol = scope_checks("pf", mode, snap, inner)
+        if len(inner.calls) != 1 or inner.calls[0][0] != before or box.messages:
+            viol.append(V("pf-passthrough", f"{mode}:lifespan", inner.calls))
+        return viol, ("lifespan", len(inner.calls), stable_repr(inner.calls[0][0]) if inner.calls else None)
+    got, viol, summary = pf_run(mode, hops, scope, mw, inner)
+    if got is None:
+        return viol, ("no-call",)
+    accept = [ref.proxy_expect(mode, hops, before["headers"])]
+    if mode == "modern" and ref.trusted(ref.list_values(before["headers"], b"forwarded"), hops) is None:
+        accept.append({"client": None, "scheme": None, "host": None})
+    viol += pf_judge(mode, summary, before, accept)
+    return viol, (summary["client"], summary["scheme"], tuple(summary["host"]), stable_repr(sorted(got.items(), key=repr)))
+
+
+_FRESH: Dict[tuple, Any] = {}
+
+
+def do_pfh(case: tuple) -> ExecResult:
+    # ("pfh", mode, hops, (request, ...)): the requests go through ONE instance, one after the other
+    from hypercorn.middleware import ProxyFixMiddleware
+
+    _, mode, hops, history = case
+    inner = Recorder(mutate=True)
+    mw = ProxyFixMiddleware(inner, mode=mode, trusted_hops=hops)  # type: ignore
+    viol: List[dict] = []
+    obs = []
+    for n, req in enumerate(history):
+        v, o = pfh_request(mode, hops, req, mw, inner)
+        viol += v
+        obs.append(o)
+        key = (mode, hops, req)
+        if key not in _FRESH:  # the same request on an instance that has no past
+            inner0 = Recorder(mutate=True)
+            _FRESH[key] = pfh_request(mode, hops, req, ProxyFixMiddleware(inner0, mode=mode, trusted_hops=hops), inner0)[1]  # type: ignore
+        if o != _FRESH[key]:
+            viol.append(V("pf-history-dependent", f"{mode}:hops{hops}:request{n}",
+                          f"request {req} after {history[:n]}: {o} but on a fresh instance {_FRESH[key]}"))
+    changed = any(len(o) == 4 and o[:3] != (("10.9.8.7", 5555), "http" if r[0] == 0 else "ws", (b"internal:8000",) if r[1] == 0 else ())
+                  for o, r in zip(obs, history))
+    return result(case, viol, (mode, hops, tuple(obs)), changed)
 
 
 # ---------------------------------------------------------------------------------------------
@@ -364,23 +619,35 @@ def request_paths() -> List[str]:
     return out
 
 
-def do_disp(case: tuple) -> ExecResult:
-    # ("disp", cls, mounts, path, scope type)
+DISP_REWRITES = ("path", "raw_path", "root_path")  # what "the prefix stripped from the path" may touch
+
+
+def disp_make(cls: str, mounts: Tuple[str, ...]) -> Tuple[Any, List[Recorder], dict]:
     from hypercorn.middleware.dispatcher import AsyncioDispatcherMiddleware, TrioDispatcherMiddleware
 
-    _, cls, mounts, path, stype = case
     apps = [Recorder(i) for i in range(len(mounts))]
-    mw = (AsyncioDispatcherMiddleware if cls == "asyncio" else TrioDispatcherMiddleware)(dict(zip(mounts, apps)))
-    scope = pf_scope(0 if stype == "http" else 1, [(b"host", b"x")])
+    table = dict(zip(mounts, apps))
+    return (AsyncioDispatcherMiddleware if cls == "asyncio" else TrioDispatcherMiddleware)(table), apps, table
+
+
+def disp_request(mw: Any, apps: List[Recorder], cls: str, mounts: Tuple[str, ...], path: str, stype: str) -> Tuple[List[dict], Any]:
+    """One request through the dispatcher `mw` (whose mounts are the recorders `apps`) -> (violations, observation)."""
+    scope = pf_scope(0 if stype == "http" else 1, [(b"host", b"x"), (b"x-other", b"1")])
     scope["path"] = path
     scope["raw_path"] = path.encode()
+    before = copy.deepcopy(scope)
+    snap = Snapshot(scope)
+    for a in apps:
+        del a.calls[:]
     box = Outbox()
     drive(mw(scope, box.receive, box.send))
     want = ref.dispatch_expect(list(mounts), path)
     called = [(a.name, a.calls[0][0].get("path")) for a in apps if a.calls]
     ncalls = sum(len(a.calls) for a in apps)
-    viol: List[dict] = []
     tag = f"{cls}:{stype}"
+    # the dispatcher hands the caller's scope object on with the path rewritten in place (not a statement of the
+    # property either way); everything else of the caller's scope must be as it was
+    viol: List[dict] = scope_checks("dispatch", tag, snap, None, DISP_REWRITES)
     if want is not None:
         i, p = want
         if ncalls != 1 or called != [(i, p)]:
@@ -393,6 +660,10 @@ def do_disp(case: tuple) -> ExecResult:
             a = [x for x in apps if x.calls][0]
             if a.calls[0][1] != box.receive or a.calls[0][2] != box.send:
                 viol.append(V("dispatch-route", f"{tag}:receive-send", ""))
+            got = a.calls[0][0]
+            for k in sorted(set(got) | set(before)):  # it is *the request* that is routed
+                if k not in DISP_REWRITES and got.get(k, "<absent>") != before.get(k, "<absent>"):
+                    viol.append(V("dispatch-route", f"{tag}:scope-key:{k}", f"{before.get(k)!r} -> {got.get(k)!r}"))
     else:
         if ncalls:
             viol.append(V("dispatch-route", f"{tag}:called-without-match", f"mounts {mounts} path {path!r}: {called}"))
@@ -411,50 +682,91 @@ def do_disp(case: tuple) -> ExecResult:
                 viol.append(V("dispatch-404-websocket", f"{tag}:{'+'.join(str(t) for t in types)}",
                               f"mounts {mounts} path {path!r}: {box.messages}"))
     obs = (cls, stype, tuple(called), tuple((m.get("type"), m.get("status")) for m in box.messages))
+    return viol, obs
+
+
+def do_disp(case: tuple) -> ExecResult:
+    # ("disp", cls, mounts, path, scope type)
+    _, cls, mounts, path, stype = case
+    mw, apps, _ = disp_make(cls, mounts)
+    viol, obs = disp_request(mw, apps, cls, mounts, path, stype)
     return result(case, viol, obs, True)
+
+
+DH_PATHS = ["/", "/a", "/a/b/x", "/b/", "/ab", "/c"]
+
+
+def do_disph(case: tuple) -> ExecResult:
+    # ("disph", cls, mounts, ((path, scope type), ...)): the requests go through ONE dispatcher, one after the other
+    _, cls, mounts, history = case
+    mw, apps, table = disp_make(cls, mounts)
+    viol: List[dict] = []
+    obs = []
+    for n, (path, stype) in enumerate(history):
+        v, o = disp_request(mw, apps, cls, mounts, path, stype)
+        viol += v
+        obs.append(o)
+        key = ("disp", cls, mounts, path, stype)
+        if key not in _FRESH:
+            mw0, apps0, _ = disp_make(cls, mounts)
+            _FRESH[key] = disp_request(mw0, apps0, cls, mounts, path, stype)[1]
+        if o != _FRESH[key]:
+            viol.append(V("dispatch-history-dependent", f"{cls}:{stype}:request{n}",
+                          f"mounts {mounts}: {path!r} after {history[:n]}: {o} but on a fresh instance {_FRESH[key]}"))
+        if list(table) != list(mounts) or any(table[m] is not a for m, a in zip(mounts, apps)):
+            viol.append(V("dispatch-history-dependent", f"{cls}:mount-table-changed", f"{list(table)} was {mounts}"))
+    return result(case, viol, tuple(obs), True)
 
 
 # ---------------------------------------------------------------------------------------------
 # HTTPS redirect
 
-R_HOSTS = [b"example.com", b"example.com:8080", b"[::1]:8000", b"EXAMPLE.com"]
+R_HOSTS = [b"example.com", b"example.com:8080", b"[::1]:8000", b"EXAMPLE.com", None]  # None: request without Host / :authority
 R_CONF = [None, "secure.example"]
 R_PATHS = [b"/", b"/abc", b"/abc%3C", b"/a%2Fb", b"//evil.example/x", b"/a//b", b"/a/", b"/a;p=1", b"/a:b", b"/~u/",
            b"/a+b", b"/%E2%82%AC", b"/a/../b", b"/@evil.example"]
 R_QUERIES = [b"", b"a=b", b"a=b&c=d%20e", b"x=/?y", b"next=//evil.example"]
 R_ROOTS = ["", "/app"]
 R_KINDS = ["http1", "http2", "https", "ws1", "ws2", "ws-noext", "wss", "lifespan"]
+R_SECURE = ("https", "wss", "lifespan")
 
 
-def do_red(case: tuple) -> ExecResult:
-    from hypercorn.middleware import HTTPToHTTPSRedirectMiddleware
+def red_in_space(ci: int, req: tuple) -> bool:
+    """Without a configured host and without a Host header there is no "same host" to redirect a cleartext request to."""
+    kind, hi = req[0], req[1]
+    return not (R_HOSTS[hi] is None and R_CONF[ci] is None and kind not in R_SECURE)
 
-    _, hi, ci, pi, qi, ri, kind = case
+
+def red_request(mw: Any, inner: Recorder, ci: int, req: tuple) -> Tuple[List[dict], Any]:
+    """One request (kind, host, path, query, root_path indices) through the redirect middleware `mw`."""
+    kind, hi, pi, qi, ri = req
     host, conf, raw_path, query, root = R_HOSTS[hi], R_CONF[ci], R_PATHS[pi], R_QUERIES[qi], R_ROOTS[ri]
     if kind == "lifespan":
         scope: dict = {"type": "lifespan", "asgi": {"version": "3.0"}, "state": {}}
     else:
         is_ws = kind.startswith("ws")
-        scope = pf_scope(1 if is_ws else 0, [(b"accept", b"*/*"), (b"host", host), (b"x-other", b"1")])
+        headers = [(b"accept", b"*/*"), (b"host", host), (b"x-other", b"1")] if host is not None else \
+            [(b"accept", b"*/*"), (b"x-other", b"1")]
+        scope = pf_scope(1 if is_ws else 0, headers)
         scope["scheme"] = {"http1": "http", "http2": "http", "https": "https", "ws1": "ws", "ws2": "ws", "ws-noext": "ws",
                            "wss": "wss"}[kind]
-        scope["http_version"] = "2" if kind in ("http2", "ws2") else "1.1"
+        scope["http_version"] = "2" if kind in ("http2", "ws2") else ("1.1" if host is not None else "1.0")
         scope["raw_path"] = raw_path
         scope["path"] = ref_unquote(raw_path)
         scope["query_string"] = query
         scope["root_path"] = root
         if kind == "ws-noext":
             scope["extensions"] = {}
-    before = copy.deepcopy(scope)
-    inner, box = Recorder(), Outbox()
-    mw = HTTPToHTTPSRedirectMiddleware(inner, conf)  # type: ignore
+    snap = Snapshot(scope)
+    inner.watch = snap
+    del inner.calls[:]
+    box = Outbox()
     drive(mw(scope, box.receive, box.send))
-    viol: List[dict] = []
+    viol: List[dict] = scope_checks("redirect", kind, snap, inner)
     types = [m.get("type") for m in box.messages]
-    secure = kind in ("https", "wss", "lifespan")
-    if secure:
+    if kind in R_SECURE:
         ok = (len(inner.calls) == 1 and inner.calls[0][0] is scope and inner.calls[0][1] == box.receive
-              and inner.calls[0][2] == box.send and not box.messages and scope == before)
+              and inner.calls[0][2] == box.send and not box.messages)
         if not ok:
             viol.append(V("secure-passthrough", kind, f"calls {len(inner.calls)} messages {types}"))
     else:
@@ -479,10 +791,52 @@ def do_red(case: tuple) -> ExecResult:
             wants = [ref.redirect_expect(s, want_host, root, raw_path, query) for s in schemes]
             if len(locs) != 1 or locs[0] not in wants:
                 viol.append(V("redirect-location", f"{kind}:url", f"{locs} wanted {wants[0]}"))
-        if scope != before:
-            viol.append(V("redirect-location", f"{kind}:scope-mutated", ""))
     obs = (kind, len(inner.calls), tuple((m.get("type"), m.get("status"), tuple(m.get("headers", []))) for m in box.messages))
+    return viol, obs
+
+
+def do_red(case: tuple) -> ExecResult:
+    from hypercorn.middleware import HTTPToHTTPSRedirectMiddleware
+
+    _, hi, ci, pi, qi, ri, kind = case
+    inner = Recorder()
+    viol, obs = red_request(HTTPToHTTPSRedirectMiddleware(inner, R_CONF[ci]), inner, ci, (kind, hi, pi, qi, ri))  # type: ignore
     return result(case, viol, obs, kind != "lifespan")
+
+
+def redh_alphabet(ci: int, small: bool) -> List[tuple]:
+    """Requests of the histories: scope kind x Host header x (path, query, root_path)."""
+    if small:
+        kinds, hosts, pqr = ["http1", "ws1", "https", "ws2"], [0, 1, 4], [(1, 1, 0)]
+    else:
+        kinds, hosts, pqr = R_KINDS[:-1], [0, 1, 2, 4], [(1, 1, 0), (2, 0, 1)]
+    reqs = [(k, hi, pi, qi, ri) for k in kinds for hi in hosts for pi, qi, ri in pqr]
+    reqs.append(("lifespan", 0, 0, 0, 0))
+    return [r for r in reqs if red_in_space(ci, r)]
+
+
+def do_redh(case: tuple) -> ExecResult:
+    # ("redh", configured host index, (request, ...)): the requests go through ONE instance, one after the other
+    from hypercorn.middleware import HTTPToHTTPSRedirectMiddleware
+
+    _, ci, history = case
+    inner = Recorder()
+    mw = HTTPToHTTPSRedirectMiddleware(inner, R_CONF[ci])  # type: ignore
+    viol: List[dict] = []
+    obs = []
+    for n, req in enumerate(history):
+        v, o = red_request(mw, inner, ci, req)
+        viol += v
+        obs.append(o)
+        key = ("red", ci, req)
+        if key not in _FRESH:
+            inner0 = Recorder()
+            _FRESH[key] = red_request(HTTPToHTTPSRedirectMiddleware(inner0, R_CONF[ci]), inner0, ci, req)[1]  # type: ignore
+        if o != _FRESH[key]:
+            viol.append(V("redirect-history-dependent", f"{req[0]}:request{n}",
+                          f"configured host {R_CONF[ci]!r}: request {req} after {history[:n]}: {o} but on a fresh instance "
+                          f"{_FRESH[key]}"))
+    return result(case, viol, (ci, tuple(obs)), True)
 
 
 def ref_unquote(raw: bytes) -> str:
@@ -709,6 +1063,90 @@ def do_e2e(params: tuple, prefix: List[int]) -> ExecResult:
 
 
 # ---------------------------------------------------------------------------------------------
+# dispatcher: lifespan, then a history of requests, then shutdown, inside the real worker_serve
+
+DS_TABLES = [("/a", "/b"), ("/b", "/"), ("/a/b", "/a", "/b")]
+DS_REQS = [("h1", b"/a/x?q=1"), ("h1", b"/b"), ("h1", b"/c"), ("ws/h1", b"/b/chat"), ("h1", b"/a/b/y")]
+
+
+class RoutedApp(MountApp):
+    async def __call__(self, scope: dict, receive: Any, send: Any) -> None:
+        if scope["type"] != "lifespan" and not self.world.finished:
+            self.world.routelog.append((self.mount, scope["type"], scope["path"]))
+        await super().__call__(scope, receive, send)
+
+
+def ds_build(params: tuple) -> Tuple[str, dict]:
+    _, engine, ti, history = params
+    mounts = DS_TABLES[ti]
+
+    def factory(world: Any) -> Any:
+        from hypercorn.app_wrappers import ASGIWrapper
+        from hypercorn.middleware.dispatcher import AsyncioDispatcherMiddleware, TrioDispatcherMiddleware
+
+        world.fanlog = []
+        world.routelog = []
+        table = {}
+        for i, m in enumerate(mounts):
+            table[m] = RoutedApp(world, {"lifespan": [("lifespan_loop",)], "http": OK_APP, "websocket": WS_APP}, i)
+        cls = AsyncioDispatcherMiddleware if engine == "asyncio" else TrioDispatcherMiddleware
+        return ASGIWrapper(OuterLog(world, cls(table)))
+
+    events: List[tuple] = []
+    for k, ri in enumerate(history):
+        carrier, target = DS_REQS[ri]
+        data = h1_request(b"GET", target) if carrier == "h1" else ws_h1_handshake(target)
+        events += [("connect", k, {"carrier": carrier, "methods": [b"GET"]}), ("data", k, data), ("wait_status", k), ("eof", k)]
+    events.append(("shutdown",))
+    sc = {"level": "serve", "app_factory": factory, "client_factory": make_client,
+          "sources": [("client", events), ("clock", [("tick",), ("tick",)])], "trio_rev": False,
+          "config": {"startup_timeout": 7, "shutdown_timeout": 3, "graceful_timeout": 2, "keep_alive_timeout": 50},
+          "randint": None}
+    return engine, sc
+
+
+def do_ds(params: tuple, prefix: List[int]) -> ExecResult:
+    _, engine, ti, history = params
+    mounts = DS_TABLES[ti]
+    eng, sc = ds_build(params)
+    w = run_world(eng, sc, prefix)
+    viol = generic_violations(w) + fan_oracle(w, ("fan", engine, mounts))
+    statuses = []
+    for k in range(len(history)):
+        rec = w.conns.get(k)
+        resp = rec.client.h1.responses if rec is not None and rec.client is not None and rec.client.h1 is not None else []
+        statuses.append(resp[0]["status"] if resp else None)
+    complete = w.shutdown_at is not None and all(s is not None for s in statuses)
+    if complete:  # every request of the history was answered and the shutdown trigger fired: the whole history ran
+        want_routes, want_status = [], []
+        for ri in history:
+            carrier, target = DS_REQS[ri]
+            stype = "http" if carrier == "h1" else "websocket"
+            hit = ref.dispatch_expect(list(mounts), target.split(b"?")[0].decode())
+            if hit is None:
+                want_status.append(404)
+            else:
+                want_routes.append((hit[0], stype, hit[1]))
+                want_status.append(200 if carrier == "h1" else 101)
+        tag = f"{engine}:serve"
+        if list(w.routelog) != want_routes:
+            viol.append(V("e2e-dispatch-route", f"{tag}:routes", f"mounts {mounts} history {[DS_REQS[r] for r in history]}: "
+                                                               f"routed {w.routelog}, wanted {want_routes}"))
+        if statuses != want_status:
+            viol.append(V("e2e-dispatch-route", f"{tag}:status", f"mounts {mounts} history {[DS_REQS[r] for r in history]}: "
+                                                               f"client saw {statuses}, wanted {want_status}"))
+        started = [m for who, m, t in w.fanlog if who == "mount" and t == "lifespan.startup.complete"]
+        if sorted(started) != list(range(len(mounts))):
+            viol.append(V("fanout-complete-lost", f"{engine}:serve:startup-per-mount", f"{w.fanlog}"))
+    if os.environ.get("MC_VERBOSE"):
+        describe(w)
+        print("fan-out log:", w.fanlog, "routes:", w.routelog, "statuses:", statuses)
+    obs = (default_observation(w), tuple(w.fanlog), tuple(w.routelog), tuple(statuses))
+    sample = {"params": repr(params), "routes": [list(map(str, x)) for x in w.routelog], "statuses": statuses}
+    return ExecResult(w.chooser.trace, viol, digest(obs), complete, w.sigs, sample)
+
+
+# ---------------------------------------------------------------------------------------------
 # families
 
 
@@ -727,9 +1165,14 @@ def scenarios(tier: str) -> List[Any]:
         for style, others in combos:
             fams.append(("pf", "modern", 3, hops, style, others))
         fams.append(("pfx", hops))
+        for mode, tis in (("legacy", (0, 1, 2)), ("modern", (3,))):
+            fams += [("pfn", mode, ti, hops) for ti in tis]  # requests without a Host header
+            fams.append(("pfh", mode, hops))  # request histories through one instance
     fams.append(("pf-lifespan",))
     fams += [("disp", cls, stype) for cls in ("asyncio", "trio") for stype in ("http", "websocket")]
+    fams += [("disph", cls, k) for cls in ("asyncio", "trio") for k in (1, 2, 3)]
     fams += [("red", kind) for kind in R_KINDS]
+    fams += [("redh", ci, depth) for ci in range(len(R_CONF)) for depth in (2, 3)]
     progs2 = list(itertools.product(FAN_PROGRAMS, repeat=2))
     if tier == "quick":
         progs3 = [("ok", "ok", "ok"), ("ok", "now", "never"), ("ok", "raise1", "ok"), ("now", "ok", "fail"),
@@ -739,6 +1182,12 @@ def scenarios(tier: str) -> List[Any]:
     for engine in ("asyncio", "trio"):
         fams += [("fan", engine, p) for p in progs2 + progs3]
         fams += [("e2e", engine, i) for i in range(len(E2E))]
+        for ti in range(len(DS_TABLES)):
+            nreq = range(len(DS_REQS))
+            hists = [()] + [(a,) for a in nreq] + list(itertools.product(nreq, repeat=2))
+            if tier != "quick" or ti == 0:
+                hists += list(itertools.product(nreq, repeat=3))
+            fams += [("ds", engine, ti, h) for h in hists]
     return fams
 
 
@@ -754,26 +1203,49 @@ def cases(fam: tuple, tier: str) -> List[tuple]:
         hops = fam[1]
         return [("pf", "modern", 3, hops, style, 0, 0, fields, prefix, 1)
                 for style in (0, 1) for fields in field_layouts(min(nmax, 3), len(EXOTIC)) for prefix in (0, 1, 2, 4)]
+    if kind == "pfn":
+        _, mode, ti, hops = fam
+        combos = [(0, 0), (1, 1), (2, 2)] if tier == "quick" else [(s, o) for s in (0, 1, 2) for o in (0, 1, 2)]
+        return [("pf", mode, ti, hops, style, others, (style + hm) % 2, fields, prefix, 0, hm)
+                for style, others in combos for hm in (1, 2) for fields in field_layouts(nmax - 1) for prefix in PREFIXES]
+    if kind == "pfh":
+        _, mode, hops = fam
+        full, small = pfh_alphabet(False), pfh_alphabet(True)
+        hists = [(a,) for a in full] + list(itertools.product(full, repeat=2))
+        hists += list(itertools.product(small if tier == "quick" else full, repeat=3))
+        return [("pfh", mode, hops, h) for h in hists]
     if kind == "pf-lifespan":
         return [("pf-lifespan", mode, hops) for mode in ("legacy", "modern") for hops in range(0, 4)]
     if kind == "disp":
         _, cls, stype = fam
         return [("disp", cls, mounts, path, stype) for mounts in mount_tables() for path in request_paths()]
+    if kind == "disph":
+        _, cls, k = fam
+        full = [(p, t) for p in DH_PATHS for t in ("http", "websocket")]
+        small = [(p, "http") for p in DH_PATHS[:5]] + [("/b/", "websocket"), ("/c", "websocket")]
+        hists = list(itertools.product(full, repeat=2)) + list(itertools.product(small if tier == "quick" else full, repeat=3))
+        return [("disph", cls, mounts, h) for mounts in mount_tables() if len(mounts) == k for h in hists]
     if kind == "red":
         return [("red", hi, ci, pi, qi, ri, fam[1]) for hi in range(len(R_HOSTS)) for ci in range(len(R_CONF))
-                for pi in range(len(R_PATHS)) for qi in range(len(R_QUERIES)) for ri in range(len(R_ROOTS))]
+                for pi in range(len(R_PATHS)) for qi in range(len(R_QUERIES)) for ri in range(len(R_ROOTS))
+                if red_in_space(ci, (fam[1], hi))]
+    if kind == "redh":
+        _, ci, depth = fam
+        alpha = redh_alphabet(ci, tier == "quick" and depth == 3)
+        return [("redh", ci, h) for h in itertools.product(alpha, repeat=depth)]
     raise ValueError(fam)
 
 
 def bounds(tier: str, params: Any) -> dict:
-    if params[0] == "e2e":
+    if params[0] in ("e2e", "ds"):
         return {"M": 0, "S": 0, "R": 0}
     if tier == "quick" or len(params[2]) > 2:
         return {"M": 1, "S": 2, "R": 0}
     return {"M": 2, "S": 3, "R": 1 if params[1] == "trio" else 0}
 
 
-_DIRECT = {"pf": do_pf, "pf-lifespan": do_pf_lifespan, "disp": do_disp, "red": do_red}
+_DIRECT = {"pf": do_pf, "pfh": do_pfh, "pf-lifespan": do_pf_lifespan, "disp": do_disp, "disph": do_disph, "red": do_red,
+           "redh": do_redh}
 
 
 def execute(params: Any, prefix: List[int]) -> ExecResult:
@@ -782,6 +1254,8 @@ def execute(params: Any, prefix: List[int]) -> ExecResult:
         return do_fan(params, prefix)
     if params[0] == "e2e":
         return do_e2e(params, prefix)
+    if params[0] == "ds":
+        return do_ds(params, prefix)
     try:
         return _DIRECT[params[0]](params)
     except HarnessError:
@@ -797,7 +1271,7 @@ def _tuplify(o: Any) -> Any:
 
 
 def explore_item_custom(params: Any, tier: str, deadline: float) -> dict:
-    if params[0] in ("fan", "e2e"):
+    if params[0] in ("fan", "e2e", "ds"):
         seen: set = set()
 
         def once(p: Any, prefix: List[int]) -> ExecResult:
